@@ -420,12 +420,75 @@ func cacheKeyOf(pkg *pkgFiles, m method, consts map[string]string, fields map[st
 		fatal("%s.Endpoint returns %s, not a string constant", m.qtype, src(ret.Results[0]))
 	}
 	ck := findFunc(pkg, m.qtype, "CacheKey")
-	if ck == nil || ck.Body == nil || len(ck.Body.List) != 1 {
-		fatal("%s.CacheKey: not a single return", m.qtype)
+	if ck == nil || ck.Body == nil || len(ck.Body.List) < 1 {
+		fatal("%s.CacheKey: no body", m.qtype)
 	}
-	ret, ok = ck.Body.List[0].(*ast.ReturnStmt)
+	// statements before the final return may only define locals from the slice bounds and the step
+	// (x := e;  if c { x = e }): for each local, the fields of q it depends on
+	localDeps := map[string]map[string]bool{}
+	qSelectors := func(n ast.Node) []string {
+		var out []string
+		ast.Inspect(n, func(x ast.Node) bool {
+			if se, ok := x.(*ast.SelectorExpr); ok {
+				t := src(se)
+				if strings.HasPrefix(t, "q.") {
+					if strings.HasPrefix(t, "q.r.Start") || strings.HasPrefix(t, "q.r.End") || strings.HasPrefix(t, "q.r.Step") {
+						out = append(out, t[:len("q.r.")+strings.IndexAny(t[len("q.r."):]+".", ".")])
+						return false
+					}
+					if t == "q.r" {
+						return true
+					}
+					fatal("%s.CacheKey: a local depends on %s (only the slice bounds and the step may be pre-processed)", m.qtype, t)
+				}
+			}
+			return true
+		})
+		return out
+	}
+	var defLocal func(st ast.Stmt, extra []string)
+	defLocal = func(st ast.Stmt, extra []string) {
+		switch v := st.(type) {
+		case *ast.AssignStmt:
+			if len(v.Lhs) != 1 || len(v.Rhs) != 1 {
+				fatal("%s.CacheKey: unrecognised statement %s", m.qtype, src(v))
+			}
+			id, ok := v.Lhs[0].(*ast.Ident)
+			if !ok {
+				fatal("%s.CacheKey: unrecognised statement %s", m.qtype, src(v))
+			}
+			if localDeps[id.Name] == nil {
+				localDeps[id.Name] = map[string]bool{}
+			}
+			for _, d := range append(qSelectors(v.Rhs[0]), extra...) {
+				localDeps[id.Name][d] = true
+			}
+			ast.Inspect(v.Rhs[0], func(x ast.Node) bool { // a local built from other locals inherits their dependencies
+				if o, ok := x.(*ast.Ident); ok && o.Name != id.Name {
+					for d := range localDeps[o.Name] {
+						localDeps[id.Name][d] = true
+					}
+				}
+				return true
+			})
+		case *ast.IfStmt:
+			if v.Init != nil || v.Else != nil {
+				fatal("%s.CacheKey: unrecognised if statement at %s", m.qtype, pos(v))
+			}
+			cond := qSelectors(v.Cond)
+			for _, b := range v.Body.List {
+				defLocal(b, cond)
+			}
+		default:
+			fatal("%s.CacheKey: unrecognised statement at %s", m.qtype, pos(st))
+		}
+	}
+	for _, st := range ck.Body.List[:len(ck.Body.List)-1] {
+		defLocal(st, nil)
+	}
+	ret, ok = ck.Body.List[len(ck.Body.List)-1].(*ast.ReturnStmt)
 	if !ok || len(ret.Results) != 1 {
-		fatal("%s.CacheKey: not a single return", m.qtype)
+		fatal("%s.CacheKey: does not end in a single return", m.qtype)
 	}
 	call, ok := ret.Results[0].(*ast.CallExpr)
 	if !ok || src(call.Fun) != "hash" {
@@ -459,6 +522,23 @@ func cacheKeyOf(pkg *pkgFiles, m method, consts map[string]string, fields map[st
 		case "output.HumanizeDuration(q.r.Step)":
 			out = append(out, comp{false, "humanize(" + field("r.Step") + ")"})
 		default:
+			// <local>.Format(time.RFC3339[Nano]) where the local is computed from the slice end (and start / step): the end
+			// component of the slice - an opaque, slice-dependent value
+			if ce, ok := a.(*ast.CallExpr); ok && len(ce.Args) == 1 && strings.HasPrefix(src(ce.Args[0]), "time.RFC3339") {
+				if se, ok := ce.Fun.(*ast.SelectorExpr); ok && se.Sel.Name == "Format" {
+					if id, ok := se.X.(*ast.Ident); ok && localDeps[id.Name]["q.r.End"] {
+						field("r.End")
+						if localDeps[id.Name]["q.r.Start"] {
+							field("r.Start")
+						}
+						if localDeps[id.Name]["q.r.Step"] {
+							field("r.Step")
+						}
+						out = append(out, comp{false, "slice_end"})
+						continue
+					}
+				}
+			}
 			fatal("%s.CacheKey: unrecognised hashed value %s at %s", m.qtype, s, pos(a))
 		}
 	}
